@@ -146,8 +146,8 @@ class OneOpenMachine(Machine):
         return []
 
 
-def run(ctx):
-    chk = Check('C18', ctx)
+def run(ctx, host=None):
+    chk = host.sub('C18') if host is not None else Check('C18', ctx)
     prog, K, E = ctx.prog, ctx.kinds, ctx.effects
     R1 = chk.rule('C18.R1', 'every descriptor-producing call is with-managed, closed on all normal paths, handed over, or owned by a class that closes it', 20)
     R1c = chk.rule('C18.R1c', 'Container.close closes and disposes both sessions; __exit__ and __del__ call it', 3)
